@@ -19,7 +19,14 @@ type Spec struct {
 
 var registry = map[string]*Spec{}
 
-func register(s *Spec) { registry[s.ID] = s }
+func register(s *Spec) {
+	run := s.Run
+	s.Run = func(p *core.Prog, r *core.Report) {
+		installRoles(p)
+		run(p, r)
+	}
+	registry[s.ID] = s
+}
 
 // Get returns the spec of a property.
 func Get(id string) *Spec { return registry[id] }
